@@ -207,7 +207,10 @@ fn scripted_case_on(st: &mut Stats, seed: u64, collide: bool, thr: bool) {
             sides[0].hold_ms = 50;
             sides[1].hold_ms = 50;
         }
-        if thr {
+        if thr || collide {
+            // (also in the simulator: with identical id scripts on both ends, a retry of one end draws the very id the other end's
+            // retry has just used; if that stream is already over and dropped while its last Acknowledge frames are still on their
+            // way, they would meet the new Requested slot - thorough tier, seed 2)
             // on real threads the two opens are not exactly simultaneous: keep every stream alive well beyond the
             // opening phase, so that an id is never drawn again while frames of a finished incarnation are still in
             // flight (immediate re-use with frames in flight is not demanded, see DESIGN.md C06/C07)
